@@ -621,6 +621,23 @@ def zoo(tier='quick'):
     p = single('pc_custom_codes', gov='tre_cb')
     p.rename = {'LAB': 'WORK', 'GOOD': 'WIDGET', 'BUS': 'MAKER'}
     Z.append(p)
+    # two profit-making firms (two goods) and one capitalist sector receiving the dividends of both
+    for nm, caps_first in (('two_firms_one_capitalist', True), ('two_firms_capitalist_last', False)):
+        p = single(nm, caps=caps_first, firm='fm1')
+        if not caps_first:
+            p.decl('CA.CAP', lambda c: sd.Capitalists(c['CA'], c.nm('CAP'), alpha_income=0.5, alpha_fin=0.2, consumption_good_name=c.nm('GOOD')), group='CA')
+            p.params += [('CA.CAP', 'AlphaIncome'), ('CA.CAP', 'AlphaFin')]
+        p.decl('CA.BUS2', lambda c: sd.FixedMarginBusiness(c['CA'], 'BUS2', profit_margin=0.3, labour_input_name=c.nm('LAB'), output_name='SERV'), group='CA')
+        p.decl('CA.SERV', lambda c: Market(c['CA'], 'SERV'), group='CA', kind='market')
+
+        def serv_post(c):
+            c.model.AddCashFlowIncomeExclusion(c['CA.HH'], 'DEM_SERV')
+            c['CA.HH'].AddVariable('DEM_SERV', 'services bought', '0.1*AfterTax')
+            c['CA.GOV'].AddVariable('DEM_SERV', 'services bought by the government', '5.0')
+            c['CA.GOV'].SetExogenous('DEM_SERV', exo(base=5.0))
+        p.post(serv_post)
+        p.features.add('two-dividend-payers')
+        Z.append(p)
     # a sector living in the external (numeraire) country sends to / receives from real-currency sectors
     p = two_zone('xz_numeraire_fund', {}, dict(caps=True, firm='fm1'), [])
     p.decl('EXT.FUND', lambda c: Sector(c['EXT'], c.nm('FUND')), needs=('EXT',), group='EXT')
